@@ -47,7 +47,10 @@ def descriptions(rng, tier):
     sub, reacs = netgen.random_network(rng, pool, rng.randint(4, 10), rng.randint(4, 20), electron_spellings=("e-",))
     out["default"] = {"elements": DEFAULT_ELEMENTS, "pseudo": DEFAULT_PSEUDO, "kwargs": {},
                       "files": [["".join(netgen.native_line(r) + "\n" for r in reacs), "naunet"]],
-                      "required": ["He"]}
+                      "required": ["He"],
+                      # user modifiers are part of the description: every rendering of the object has to honour them
+                      "rate_modifier": {"1": "2.5e-13 * pow(Tgas/300.0, 2.0)", "3": "0.0"},
+                      "ode_modifier": {sub[0].name: {"factors": ["-1e-3"], "reactants": [[sub[0].name]]}}}
     # D2: upper-case element list (UCLCHEM style spelling)
     up = [native(1, ["HE+", "E"], ["HE"]), native(2, ["MG", "HE+"], ["MG+", "HE"]), native(3, ["SI", "H+"], ["SI+", "H"]),
           native(4, ["H", "CRP"], ["H+", "E"], ty=101), native(5, ["CL", "H2"], ["HCL", "H"]), native(6, ["SIO", "HE+"], ["SI+", "O", "HE"])]
